@@ -70,6 +70,12 @@ def kani_cmd(profile, harness_names, jobs, timeout_s, json_path, target_dir, ext
         cmd += ["--no-overflow-checks"]
     if extra:
         cmd += extra
+    # CBMC keeps byte arrays (heap buffers of Vec / Arc / Box) field-sensitive only up to 64
+    # elements by default; above that the limb counts stored in boxed values stop being constant-
+    # propagated and every limb loop unwinds to the bound.  Analysis precision only (not semantics).
+    fs = os.environ.get("VERIF_FS_ARRAY", "1024")
+    if fs != "0":
+        cmd += ["--cbmc-args", "--max-field-sensitivity-array-size", fs]
     return cmd
 
 
